@@ -10,6 +10,9 @@ ENGINE=$1
 RACE=${2:-}
 export GOFLAGS=-mod=mod GOPROXY=off GOSUMDB=off GOTOOLCHAIN=local CGO_ENABLED=1
 WORK=$VERIF/.work
+# one build area per repository path, so a scratch worktree (VERIF_REPO=...)
+# never disturbs builds against /repo
+if [ "$REPO" != /repo ]; then WORK=$WORK/alt-$(echo "$REPO" | md5sum | cut -c1-8); fi
 mkdir -p "$WORK/bin" "$WORK/mod"
 (
 flock 9
